@@ -274,25 +274,29 @@ impl<'a> Iterator for CountersReaderIter<'a> {
     type Item = &'a CounterMetaDataDefn;
 
     fn next(&mut self) -> Option<Self::Item> {
-        let next_metadata_pos: Index = self.pos as Index * METADATA_LENGTH as Index;
+        loop {
+            let next_metadata_pos: Index = self.pos as Index * METADATA_LENGTH as Index;
 
-        // Check bounds. End of the next Metadata struct to be read from buffer
-        // should not be beyond the buffer end.
-        if next_metadata_pos > self.inner.metadata_buffer.capacity() - METADATA_LENGTH {
-            return None;
-        }
+            // Check bounds. End of the next Metadata struct to be read from buffer
+            // should not be beyond the buffer end.
+            if next_metadata_pos > self.inner.metadata_buffer.capacity() - METADATA_LENGTH {
+                return None;
+            }
 
-        self.pos += 1;
+            self.pos += 1;
 
-        let record_status = self.inner.metadata_buffer.get_volatile::<i32>(next_metadata_pos);
+            let record_status = self.inner.metadata_buffer.get_volatile::<i32>(next_metadata_pos);
 
-        match record_status {
-            RECORD_UNUSED | RECORD_RECLAIMED => None,
-            RECORD_ALLOCATED => {
-                let ret = self.inner.metadata_buffer.as_ref::<CounterMetaDataDefn>(next_metadata_pos);
-                Some(ret)
-            },
-            _ => unreachable!("CountersReaderIter::next: unknown record status {}", record_status),
+            match record_status {
+                RECORD_UNUSED => return None,
+                // a freed counter is skipped (as for_each does), the counters after it are still live
+                RECORD_RECLAIMED => continue,
+                RECORD_ALLOCATED => {
+                    let ret = self.inner.metadata_buffer.as_ref::<CounterMetaDataDefn>(next_metadata_pos);
+                    return Some(ret);
+                }
+                _ => unreachable!("CountersReaderIter::next: unknown record status {}", record_status),
+            }
         }
     }
 }
